@@ -158,7 +158,7 @@ pub fn generate(seed: u64, w: &World, with_big: bool, with_stalls: bool) -> Valu
     let output = if rng.chance(1, 4) {
         Value::Null
     } else {
-        json!(*rng.pick(&["absent", "text", "old-schema", "long-text", "text", "stale-same-data", "not-utf8"]))
+        json!(*rng.pick(&["absent", "text", "old-schema", "long-text", "text", "stale-same-data", "not-utf8", "symlink", "empty"]))
     };
     let path = *rng.pick(&["/graphql", "/", "/api/v1/graphql?x=1&y=two", "/graphql/", "/v1/graphql;v=1", "/~user/gql", "/with%20space/graphql", "/graphql?query=%7B%7D&a=b,c"]);
     let usable: Vec<&Fixture> = w.fixtures.iter().filter(|f| !f.big || (with_big && seed % 8 == 0) || seed % 64 == 0).collect();
